@@ -6,6 +6,11 @@ from pathlib import Path
 
 from . import common
 from .registry import CLAIMED, NOT_YET
+try:
+    from .registry import SUSPENDED
+except ImportError:
+    SUSPENDED = {}
+CLAIMED = {k: v for k, v in CLAIMED.items() if k not in SUSPENDED}
 
 V = Path("/verif")
 props = [json.loads(l) for l in (V / "properties.jsonl").read_text().splitlines() if l.strip()]
@@ -38,7 +43,7 @@ man = {
                  "kind_free_text": "Coq 8.16 theorems over hand-written Gallina models; models evaluated by vm_compute against the "
                                    "implementation's observations on generated cases on every run"}],
     "checks": checks,
-    "not_applicable": [{"property_id": p["id"], "reason": NOT_YET} for p in props if p["id"] not in CLAIMED],
+    "not_applicable": [{"property_id": p["id"], "reason": SUSPENDED.get(p["id"], NOT_YET)} for p in props if p["id"] not in CLAIMED],
     "notes": "See DESIGN.md. Exit codes: 0 held, 1 VIOLATION, 2 infrastructure error of the checker itself.",
 }
 (V / "MANIFEST.json").write_text(json.dumps(man, indent=1))
